@@ -25,6 +25,8 @@ Definition enc_cmd (c : cmd) : list Z :=
   | CHt => [9]
   | CSo => [14] | CSi => [15]
   | CDesig g c => [27; (if g =? 0 then 40 else 41); c]
+  | CVpa r => csi [r] 100
+  | CDecom on => [27; 91; 63; 54; (if on then 104 else 108)]
   end.
 Definition enc_cmds (cs : list cmd) : list Z := flat_map enc_cmd cs.
 
@@ -91,11 +93,12 @@ Fixpoint all2 {A B} (f : A -> B -> bool) (l : list A) (m : list B) : bool :=
   | x :: l', y :: m' => f x y && all2 f l' m'
   | _, _ => false
   end.
-(* screen contents, cursor and scrolling region of the emulator equal those of the reference *)
+(* screen contents, cursor, scrolling region and origin mode of the emulator equal those of the reference *)
 Definition agrees (s : st) (v : vt) : bool :=
   all2 (all2 cell_agrees) (term s) (v_g v)
   && (fst (cur s) =? v_x v) && (snd (cur s) =? v_y v)
-  && (sr_start s =? v_top v) && (sr_end s =? v_bot v).
+  && (sr_start s =? v_top v) && (sr_end s =? v_bot v)
+  && Bool.eqb (m_constrain (modes s)) (v_origin v).
 
 (* the history: the answers written to the host are the reference's answers, and (as long as the reference knows
    what the scrollback holds) the scrollback holds the lines that left the top of the screen, in order - the
@@ -138,6 +141,8 @@ Definition dec_cmd (l : list Z) : option (cmd * list Z) :=
   | 20 :: r => Some (CHt, r)
   | 21 :: r => Some (CSo, r) | 22 :: r => Some (CSi, r)
   | 23 :: g :: c :: r => Some (CDesig g c, r)
+  | 24 :: n :: r => Some (CVpa n, r)
+  | 25 :: b :: r => Some (CDecom (negb (b =? 0)), r)
   | 18 :: r => match dec_list r with Some (l, r') => Some (CSgr l, r') | None => None end
   | _ => None
   end.
@@ -162,7 +167,7 @@ Definition enc_vt (v : vt) : list Z :=
   ++ [v_x v; v_y v; enc_bool (v_pend v); v_top v; v_bot v] ++ enc_rattr (Some (v_attr v))
   ++ enc_rrows (v_sb v) ++ [enc_bool (v_sbknown v)]
   ++ (zlen (v_replies v) :: flat_map (fun r => match r with RStatusOk => [5; 0; 0] | RCursor a b => [6; a; b] end) (v_replies v))
-  ++ (let '(g0, g1, sh) := v_cs v in [g0; g1; sh]).
+  ++ (let '(g0, g1, sh) := v_cs v in [g0; g1; sh]) ++ [enc_bool (v_origin v)].
 
 (* case  = 0 <vterm case>                        -> the emulator model alone
          | 1 e w h cmd*                          -> the emulator model fed with enc_cmds, then -7 and
